@@ -16,6 +16,7 @@ def extra(ctx):
     glue_checks.single_suite(ctx, {'valid'}, [dict(max_n=5), dict(max_n=4, multi=True, nbest_max=3), dict(max_n=4, beam=True)], ctx.budget(600, 6000))
     glue_checks.real_grammar_suite(ctx, {'valid'}, ctx.budget(100, 1000))
     glue_checks.full_stack_suite(ctx, ctx.budget(150, 1500))
+    glue_checks.lazy_suite(ctx, ctx.budget(120, 1200))
 
 
 def run(ctx):
